@@ -1,5 +1,6 @@
 import StraxModel.Model.Superrun
 import StraxModel.Lemmas.ChunkAlgChunk
+import StraxModel.Lemmas.SuperrunBad
 /-
   Helper lemmas for property C14 (superruns).  Core Lean only.
 -/
@@ -575,7 +576,8 @@ theorem concatenate_rows {cs : List Chunk} {allow : Bool} {c : Chunk} (h : conca
 set_option maxRecDepth 8000 in
 theorem split_rows {c a b : Chunk} {t : Int} {early : Bool} (h : c.split t early = .ok (a, b)) :
     a.rows ++ b.rows = c.rows := by
-  unfold Chunk.split at h
+  obtain ⟨_, h⟩ := Chunk.split_ok_core h
+  unfold Chunk.splitCore at h
   simp only [bind, Except.bind, pure, Except.pure] at h
   repeat' (split at h)
   all_goals (try (cases h; done))
@@ -591,7 +593,8 @@ theorem split_rows {c a b : Chunk} {t : Int} {early : Bool} (h : c.split t early
 /-- cutting a chunk at its own end (what `Plugin.iter` does with a single dependency) leaves nothing behind -/
 theorem split_at_stop_rows {c a b : Chunk} {early : Bool} (h : c.split c.stop early = .ok (a, b)) (hle : c.start ≤ c.stop) :
     a.rows = c.rows ∧ b.rows = [] := by
-  unfold Chunk.split at h
+  obtain ⟨_, h⟩ := Chunk.split_ok_core h
+  unfold Chunk.splitCore at h
   have ht : max (min c.stop c.stop) c.start = c.stop := by omega
   simp only [bind, Except.bind, pure, Except.pure, ht, if_true] at h
   repeat' (split at h)
